@@ -73,7 +73,74 @@ if asan:
 # Add the runs here, report mismatches with chk.violation("end-to-end/<clause>", text, replay) and put the
 # counters into cov["end_to_end"]; nothing above depends on it.
 def layer4_end_to_end(chk, cov):
-    return None
+    """The real binary, one thread, one source, no diffuse field, copy level 0: random numbers are only consumed by the
+    source tasks, so the packet set is the same for every layout; the H-photo-state dump of the per-cell estimators
+    after one iteration (copies folded) must agree across layouts up to summation round-off."""
+    import struct
+    import binrun, params as P
+    exe = binrun.binary("hooks")
+    root = chk.rundir()
+    rng = common.SplitMix64(chk.seed * 6700417 + 3)
+    quick_ = chk.tier == "quick"
+    ncfg = 3 if quick_ else 12
+    st = dict(configs=0, runs=0, cells_compared=0, max_rel_diff=0.)
+    for c in range(ncfg):
+        r = rng.fork("e%d" % c)
+        L = 10.0 ** r.uniform(15, 17)
+        periodic = [False] * 3 if c % 3 != 2 else [r.chance(0.5), True, r.chance(0.5)]
+        tau = r.uniform(3, 12) if any(periodic) or r.chance(0.5) else r.uniform(0.05, 1.)
+        base = dict(ncell=[12, 12, 12], periodic=periodic, copy_level=0, nphoton=r.choice([2000, 5001]), niter=1, seed=r.randint(1, 10 ** 6),
+                    box=([-0.5 * L] * 3, [L] * 3), density=tau / (6.3e-22 * L), sigma_H=6.3e-22, luminosity=1e-30,
+                    sources=[tuple(r.uniform(-0.4, 0.4) * L for _ in range(3))], continuous=None, diffuse=None, nbuffers=4000,
+                    queue=30000, shared_queue=30000, ntasks=60000, cross="FixedValue", temperature=False)
+        layouts = [[1, 1, 1], [2, 2, 2], [4, 2, 1], [3, 1, 2], [1, 4, 3], [4, 4, 4]]
+        if quick_:
+            layouts = layouts[:1] + [layouts[1 + (c + k) % 5] for k in range(3)]
+        dumps = {}
+        for l in layouts:
+            rd = os.path.join(root, "e2e_%d_%s" % (c, "x".join(map(str, l))))
+            os.makedirs(rd, exist_ok=True)
+            pf = P.photo_params(dict(base, nsub=l), rd)
+            rr = binrun.run_cmi(exe, rd, ["--params", pf, "--task-based"], env={"CMI_VERIF_STATE_DUMP": os.path.join(rd, "st_")}, timeout=300, threads=1)
+            st["runs"] += 1
+            fn = os.path.join(rd, "st_photo_ion_000.bin")
+            if rr.rc != 0 or not os.path.exists(fn):
+                chk.violation("end-to-end/run-failed", "layout %s: exit status %s, dump %s | %s" % (l, rr.rc, os.path.exists(fn), (rr.err or "")[-300:].replace("\n", " ")),
+                              dict(cfg=dict(base, nsub=l)))
+                continue
+            with open(fn, "rb") as f:
+                nx, ny, nz, nv = struct.unpack("<4Q", f.read(32))
+                data = struct.unpack("<%dd" % (nx * ny * nz * nv), f.read())
+            dumps[tuple(l)] = (nv, data)
+        ref = dumps.get((1, 1, 1))
+        if not ref:
+            continue
+        st["configs"] += 1
+        nv, a = ref
+        ncell = len(a) // nv
+        jmean = sum(a[i * nv] for i in range(ncell)) / ncell
+        if jmean <= 0:
+            chk.inconclusive_because("end-to-end reference run deposited nothing")
+            continue
+        for l, (nv2, b) in dumps.items():
+            if l == (1, 1, 1):
+                continue
+            worst, where = 0., None
+            for i in range(ncell):
+                for k in (0, nv - 4):      # hydrogen mean intensity, hydrogen heating term
+                    x, y = a[i * nv + k], b[i * nv + k]
+                    scale = max(abs(x), 1e-6 * (jmean if k == 0 else abs(x) + abs(y)))
+                    if scale > 0:
+                        d = abs(x - y) / scale
+                        if d > worst:
+                            worst, where = d, (i, k, x, y)
+            st["cells_compared"] += ncell
+            st["max_rel_diff"] = max(st["max_rel_diff"], worst)
+            if worst > 1e-9:
+                chk.violation("end-to-end/estimators-differ", "layout %s vs undivided grid: cell %d variable %d: %.17g vs %.17g (relative %.3e) periodic=%s N=%d tau_box=%.2f" % (
+                    list(l), where[0], where[1], where[3], where[2], worst, periodic, base["nphoton"], tau), dict(cfg=dict(base, nsub=list(l))))
+    cov["end_to_end"] = st
+    return st
 
 
 layer4_end_to_end(chk, cov)
